@@ -102,11 +102,13 @@ CLAIMED = {
    text="Theorems over the lenient reader model (short reads return fewer bytes, exactly like Python streams): truncation_safe — every truncation of "
         "a valid file at ANY byte is refused or read as a prefix of the stored points; crash_safe (Proofs/CrashProofs.v) — every crash image of the "
         "writer's low-level write trace (after any number of writes, the next one torn at any byte, including inside the in-place header rewrite, "
-        "where a torn little-endian count never exceeds the new count) is refused or read as a prefix; termination by structural recursion on the bytes. "
+        "where a torn little-endian count never exceeds the new count) is refused or read as a prefix; crash_safe_append (Proofs/CrashAppendProofs.v) — "
+        "the same for every crash image of an append session on an existing file (chunk writes over the old EVLRs, EVLRs, in-place header rewrite; a "
+        "torn count lies between 0 and the new count); termination by structural recursion on the bytes. "
         "The write discipline the theorems assume is checked on traces recorded from LasData.write, chunked LasWriter and LasAppender sessions; "
         "correspondence: the extracted reader vs laspy.read on every image.",
    design="5/C19", technique="Coq proof: lenient codec lemmas + torn little-endian counter lemma over a write-trace model; extracted reader vs laspy on crash images",
-   note=BASE_NOTE + " OS write atomicity beyond byte-granular tearing is not modelled; appender crash images are covered by correspondence and oracle only."),
+   note=BASE_NOTE + " OS write atomicity beyond byte-granular tearing is not modelled; compressed appends are covered through the C14 backend contract only."),
  "C01": dict(
    text="Theorem read_write_roundtrip over the Gallina file model: for every version 1.1-1.4, any record length, ANY record bytes, any count "
         "(0 and 1 included), any well-formed VLR/EVLR lists, reading the written file returns the records byte for byte, the VLRs, the EVLRs, the "
